@@ -465,6 +465,17 @@ def c13_plan(tier, seed):
     out = []
     for sb in (8192, 16387):
         out += jobs("os-debug", "c13", 10, lambda b, sb=sb: {"IPCMON_SNDBUF": sb, "IPCMON_POISON": "1"}, {"all": 1}, timeout=3000)
+    if tier != "quick":
+        # beyond the stated grid: the same 1024 patterns laid over later attempts of the send (a 6-packet send under
+        # faults makes dozens), two more reported buffer sizes, and the release build
+        for sb in (8192, 16387):
+            for off in (5, 10, 20):
+                out += jobs("os-debug", "c13", 10, lambda b, sb=sb: {"IPCMON_SNDBUF": sb, "IPCMON_POISON": "1"}, {"all": 1, "off": off}, timeout=3000)
+        for sb in (4096, 12291):
+            for off in (0, 10):
+                out += jobs("os-debug", "c13", 10, lambda b, sb=sb: {"IPCMON_SNDBUF": sb, "IPCMON_POISON": "1"}, {"all": 1, "off": off}, timeout=3000)
+        for sb in (8192, 16387):
+            out += jobs("os-release", "c13", 10, lambda b, sb=sb: {"IPCMON_SNDBUF": sb, "IPCMON_POISON": "1"}, {"all": 1}, timeout=3000)
     return out
 
 
@@ -827,13 +838,14 @@ PROPS = {
         "exhaustive": True,
         "level_text": "Fault enumeration: ENOBUFS is injected at the libc boundary on bit patterns over the first 10 transmission attempts of one send, for message shapes "
                       "{<=2000 B, one packet >2000 B, 2, 3, 6 packets} x {no attachments, 3 senders + 3 regions} x two reported send-buffer sizes. Both tiers run all 1024 "
-                      "patterns per cell (20480 sends, exhaustive inside the grid). "
+                      "patterns per cell (20480 sends, exhaustive inside the grid). The thorough tier adds, beyond the stated grid, the same 1024 patterns laid over "
+                      "attempts 5..15, 10..20 and 20..30 of the send, reported buffer sizes 4096 and 12291, and the release build (12 further grids of 10240 sends). "
                       "Success must deliver exactly the message with probed attachments; failure must not deliver an altered, short or duplicated message; a "
                       "follow-on message must arrive in both cases; no packet may be received truncated (MSG_TRUNC/MSG_CTRUNC).",
         "level_note": "Injected ENOBUFS replaces the real transmission attempt (nothing is sent), which is what the kernel does when it cannot allocate the buffer. "
                       "Both ends run in one thread because the real socket buffer is larger than the whole (small-packet) message.",
         "technique": "runtime monitoring: exhaustive ENOBUFS pattern injection through the LD_PRELOAD interposer with payload, attachment-identity and truncation-flag oracles",
-        "rule": "case = (shape, attachments, 10-bit ENOBUFS pattern, reported SO_SNDBUF); distinct = that tuple; every case is non-trivial (pattern 0 is the fault-free control)",
+        "rule": "case = (shape, attachments, 10-bit ENOBUFS pattern, reported SO_SNDBUF, index of the first attempt the pattern covers); distinct = that tuple; every case is non-trivial (pattern 0 is the fault-free control)",
         "assumptions": ["ENOBUFS only ever comes from the transmission calls sendmsg/send"],
     },
     "C12": {
